@@ -1882,6 +1882,7 @@ fn run(c: &Case) -> Obs {
         "rwz" => run_rwz(c),
         "tab" => run_tab(c),
         "sub" => run_sub(c),
+        "sqi" => run_sqi(c),
         "rw" => run_rw(c),
         _ => Obs::ok("-", false),
     }
@@ -2790,6 +2791,108 @@ fn generate(rng: &mut Rng, tier: &str, w: &mut CaseWriter) {
     for _ in 0..n_hb {
         gen_hb(rng, w);
     }
+    // sequence iterator schedules (wave 10; appended last)
+    let n_sqi = if thorough { 6000 } else { 300 };
+    for i in 0..n_sqi {
+        let n = if i < 40 { i % 20 } else { *rng.pick(&[0usize, 1, 2, 3, 4, 5, 6, 7, 8, 9, 15, 16, 17, 31, 32, 33, 100, 101, 300]) };
+        let bases = gen_bases(rng, n);
+        let mid = rng.below(n as u64 + 3) as usize;
+        let len = match rng.below(4) {
+            0 => n + 2,
+            1 => n,
+            _ => rng.below(n as u64 + 3) as usize,
+        };
+        let style = rng.below(6);
+        let sched: String = (0..len)
+            .map(|k| match style {
+                0 => 'f',
+                1 => 'b',
+                2 => if k % 2 == 0 { 'f' } else { 'b' },
+                3 => if k % 2 == 0 { 'b' } else { 'f' },
+                _ => if rng.chance(1, 2) { 'f' } else { 'b' },
+            })
+            .collect();
+        let fa = "f".repeat(mid.min(n).min(30) + 1);
+        let fb = "f".repeat(n.saturating_sub(mid).min(30) + 1);
+        w.push("sqi", vec![hex(&bases), mid.to_string(), if sched.is_empty() { "_".into() } else { sched }, fa, fb]);
+    }
+}
+
+// -------------------------------------------------------------------------------------------
+// `sqi` (wave 10): record/sequence/iter.rs as a state machine -- Sequence::iter() driven by an arbitrary
+// schedule of next / next_back with size_hint observed after every call, and the iterators of both
+// halves of split_at_checked driven by next with size_hint.  Model: NV.Bam.SeqIter.seq_iter_run.
+fn run_sqi(c: &Case) -> Obs {
+    let header = sam::Header::default();
+    let mut s = Spec::default_unmapped();
+    s.seq = c.b(0);
+    let mid = c.u(1) as usize;
+    let sched: Vec<u8> = c.args[2].bytes().filter(|b| *b == b'f' || *b == b'b').collect();
+    let (fa, fb) = (c.args[3].len(), c.args[4].len());
+    let block = write_raw(&header, &to_record_buf(&s)).expect("write");
+    let eg = read_raw_eager(&header, &block).expect("read");
+    let es: Vec<u8> = { let x: &[u8] = eg.sequence().as_ref(); x.to_vec() };
+    let lz = match read_raw_lazy(&block) {
+        Ok(l) => l,
+        Err(e) => return Obs::ok("-", false).with_verdict(bad("lazy-read", format!("{e}"))),
+    };
+    // one run: "P" or "h0;o1:h1.o2:h2..."; the bool says size_hint was (n, Some(n)) throughout
+    fn drive<I: Iterator<Item = u8>>(mk: impl FnOnce() -> I, ops: &[u8], step: impl Fn(&mut I, u8) -> Option<u8>) -> (String, bool, Vec<Option<u8>>) {
+        match guarded(std::panic::AssertUnwindSafe(|| {
+            let mut it = mk();
+            let mut exact = true;
+            let mut items = Vec::new();
+            let (lo, hi) = it.size_hint();
+            exact &= hi == Some(lo);
+            let mut out = format!("{lo};");
+            let mut parts = Vec::new();
+            for op in ops {
+                let o = step(&mut it, *op);
+                let (lo, hi) = it.size_hint();
+                exact &= hi == Some(lo);
+                parts.push(format!("{}:{}", o.map(|b| b.to_string()).unwrap_or_else(|| "-".into()), lo));
+                items.push(o);
+            }
+            out.push_str(&parts.join("."));
+            (out, exact, items)
+        })) {
+            Outcome::Done(r) => r,
+            Outcome::Panicked(_) => ("P".to_string(), true, Vec::new()),
+        }
+    }
+    let ls = lz.sequence();
+    let n = ls.len();
+    let (whole, exact_w, items) = drive(|| ls.iter(), &sched, |it, op| if op == b'b' { it.next_back() } else { it.next() });
+    let fs_a = vec![b'f'; fa];
+    let fs_b = vec![b'f'; fb];
+    let (halves, exact_h) = match guarded(std::panic::AssertUnwindSafe(|| ls.split_at_checked(mid))) {
+        Outcome::Done(Some((a, b))) => {
+            let (oa, ea, _) = drive(|| a.iter(), &fs_a, |it, _| it.next());
+            let (ob, eb, _) = drive(|| b.iter(), &fs_b, |it, _| it.next());
+            (format!("{oa}/{ob}"), ea && eb)
+        }
+        Outcome::Done(None) => ("None".to_string(), true),
+        Outcome::Panicked(_) => ("P".to_string(), true),
+    };
+    // L3 oracle, stated independently on the eagerly decoded bases: the lazy iterator is a
+    // double-ended queue over them, and ExactSizeIterator's contract holds
+    let mut v: V = Ok(());
+    if whole == "P" || halves.contains('P') {
+        v = bad("lazy-sequence-iter-panic", format!("n={n} mid={mid}"));
+    } else if !(exact_w && exact_h) {
+        v = bad("lazy-sequence-iter-size-hint-not-exact", format!("n={n} mid={mid}"));
+    } else {
+        let mut dq: std::collections::VecDeque<u8> = es.iter().copied().collect();
+        for (k, op) in sched.iter().enumerate() {
+            let want = if *op == b'b' { dq.pop_back() } else { dq.pop_front() };
+            if items.get(k).copied().flatten() != want || items.get(k).is_none() {
+                v = bad("lazy-sequence-iter-double-ended-differs-from-eager", format!("n={n} step={k} op={}", *op as char));
+                break;
+            }
+        }
+    }
+    let obs = short_or_digest(format!("{whole}|{halves}"));
+    Obs::ok(obs, n >= 2 && sched.len() >= 2).with_verdict(v)
 }
 
 /// `hb`: one whole block (block_size + body) with a hostile count: l_seq / n_cigar_op / l_read_name /
